@@ -185,8 +185,9 @@ static inline void draw_config(vg::Case &c, Config &g, const DrawFlags &f = Draw
 				g.lz.ext_size_low = UINT32_MAX; g.lz.ext_size_high = UINT32_MAX;
 			}
 			// preset dictionary only where the container can carry it: raw
-			if (is_raw(e) && c.chance(70)) { uint32_t n = c.pick<uint32_t>({1, 7, 100, 4096, 5000, g.lz.dict_size / 2, g.lz.dict_size, g.lz.dict_size + 1000});
-				if (n > (1u << 20)) n = 1u << 20;
+			if (is_raw(e) && c.chance(70)) { uint32_t n = c.pick<uint32_t>({1, 7, 100, 4096, 5000, g.lz.dict_size / 2, g.lz.dict_size, g.lz.dict_size + 1000,
+					/* longer than the encoder's whole window (dict + ~0.6 MiB): only the tail may be used */ g.lz.dict_size + (700u << 10), g.lz.dict_size * 2 + (1u << 20)});
+				if (n > (3u << 20)) n = 3u << 20;
 				vg::Recipe r; r.kind = c.flag() ? vg::RK_TEXT : vg::RK_COPY_EDITS; r.len = n; r.seed = c.byte(); r.alpha = 16; r.period = 30; g.pdict = vg::expand(r); }
 		}
 	}
@@ -196,6 +197,16 @@ static inline void draw_config(vg::Case &c, Config &g, const DrawFlags &f = Draw
 		if (g.block_size == 0 && !g.use_preset && g.lz.dict_size > (1u << 20)) g.block_size = 1u << 20; }
 	if (f.allow_norm_hook && c.chance(90)) g.norm_after = c.pick<uint32_t>({1, 100, 4096, 5000, 70000, 300000});
 	g.link();
+}
+
+// Input that shares content with the END of the preset dictionary (what both sides must keep when it is longer than the
+// dictionary / window): a copy of its tail with a few edits.  Returns false if there is no preset dictionary.
+static inline bool input_from_pdict_tail(vg::Case &c, const Config &g, std::vector<uint8_t> &in, uint32_t maxlen) {
+	if (g.pdict.empty()) return false;
+	uint32_t n = std::min<uint32_t>((uint32_t)g.pdict.size(), std::max<uint32_t>(16, c.len_exp(maxlen)));
+	in.assign(g.pdict.end() - n, g.pdict.end());
+	vg::Rng r(c.u32()); uint32_t edits = n / 200; for (uint32_t i = 0; i < edits; ++i) in[r.below(n)] ^= (uint8_t)(1 + r.below(255));
+	return true;
 }
 
 // Cost governor: big inputs are not combined with the slowest option values (extreme presets,
